@@ -177,7 +177,13 @@ impl<T: Send + Sync> AtomicIter<T> for ConIterOfVec<T> {
     }
 
     fn early_exit(&self) {
-        self.counter().store(self.vec_len)
+        // positions before the previous value of the counter are reserved and will be taken by the pulls that reserved them;
+        // the remaining positions can never be reserved any more: they are taken and dropped here
+        let previous = self.counter().swap(self.vec_len);
+        if previous < self.vec_len {
+            // SAFETY: no pull has reserved or can reserve positions previous..vec_len
+            drop(unsafe { self.take_slice(previous, self.vec_len - previous) });
+        }
     }
 }
 
